@@ -103,6 +103,18 @@ def deep_chain(depth, with_missing):
 
 # programs with a hand-derived answer (the search order applied by hand); also compared with PanCore
 EXPECT = [
+    # own public names only; private ones exactly when the keyword is true (also when the flag is forwarded through a variable)
+    ("keys_private_flag", 'parent := {name: "parent", _secret: 1}\nchild := parent.bear({age: 3, _id: 42, _missing: m{|n| "missing #{n}"}})\n'
+     "[child.keys, child.keys(private?: true), child.keys(private?: false), child.values(private?: false), child.items(private?: false)].p\n"
+     "show := {|o, all| o.keys(private?: all)}\n[show(child, false), show(parent, false), show(parent, true), show(parent, nil), show(parent, 1)].p\n",
+     '[["age"], ["age", "_id", "_missing"], ["age"], [3], [["age", 3]]]\n[["age"], ["name"], ["name", "_secret"], ["name"], ["name"]]\n'),
+    # a user-defined _missing may itself read another absent name of the receiver, and an earlier absent-name call that ended in a
+    # (caught) error leaves nothing behind: every later absent name is resolved by _missing again
+    ("missing_reads_absent_name_and_recovers", 'o := {_missing: m{|name|\n  return "value of color" if name == "color"\n  return .color if name == "colour"\n'
+     '  raise ValueErr.new("unknown name #{name}")\n}}\n[o.color, o.try.{|x| x.colour}.A, o.color].p\n'
+     "[o.try.{|x| x.size}.A[1].msg, o.color, (o~.size) == o, o.colour].p\nq := o.bear({tag: 1})\n[q.colour, q.try.{|x| x.size}.err?, q.colour, o.colour].p\n",
+     '["value of color", ["value of color", nil], "value of color"]\n["unknown name size", "value of color", true, "value of color"]\n'
+     '["value of color", true, "value of color", "value of color"]\n'),
     ("descendant_of_int_value", "d := 7.bear({q: 5, tag: 1})\n[d['q], d.q, d['tag], d['nope], d.which('q)['tag], d.proto].p\n", "[5, 5, 1, nil, 1, 7]\n"),
     ("descendant_of_arr_value", "e := [1, 2].bear({len: 'shadow, q: 3})\n[e['len], e.len, e['q], e.q].p\n", '["shadow", "shadow", 3, 3]\n'),
     ("descendant_of_str_value", 's := "ab".bear({q: 5, uc: \'mine})\n[s[\'q], s.q, s[\'uc], s.uc].p\n', '[5, 5, "mine", "mine"]\n'),
